@@ -113,13 +113,21 @@ class C15(PropBase):
         # sharing classes, from the property: same path up to the file extension (pathlib suffix of the last component)
         import posixpath
         stem = {}
+        pathof = {}
         for c, o in zip(cases, impl_out):
             if c.stream == 'paths' and o[0] == 'ok' and o[1]:
+                pathof[c.meta['sid']] = o[1][0]
                 d_, name = posixpath.split(o[1][0])
                 suf = dl.pure_suffix(name)
                 stem[c.meta['sid']] = d_ + '/' + (name[:-len(suf)] if suf else name)
         def share_of(s_):
             return [x for x in stem if stem[x] == stem.get(s_)] if s_ in stem else [s_]
+        def on_disk(s_, created_):
+            # an entity exists from the moment it or a descendant was created: its path is the path of a created entity or a folder above one
+            p_ = pathof.get(s_)
+            if p_ is None:
+                return True      # (no path known to this oracle: no judgement)
+            return any(pathof.get(c_) == p_ or (pathof.get(c_) or '').startswith(p_ + '/') for c_ in created_)
         byh = {}
         for c, o in zip(cases, impl_out):
             byh.setdefault(c.meta.get('h'), []).append((c, o))
@@ -144,8 +152,12 @@ class C15(PropBase):
                 elif c.op == 'w_set':
                     if o[0] != 'ok' and o[1] != 'SpilException':
                         fails.append((c, o, 'set raised %r' % (o,))); break
+                    if o[0] == 'ok' and not on_disk(c.args[1], created):
+                        fails.append((c, o, 'set() on %r succeeded although neither it nor a descendant was created (created so far: %r)' % (c.args[1], sorted(created)))); break
                 elif c.op == 'w_update':
                     s = c.args[1]
+                    if o[0] == 'ok' and not on_disk(s, created):
+                        fails.append((c, o, 'update() of %r succeeded although neither it nor a descendant was created (created so far: %r)' % (s, sorted(created)))); break
                     if o[0] == 'ok':
                         for k, v in c.args[2]:
                             written.setdefault(s, []).append((k, v))
